@@ -102,7 +102,7 @@ def _scope_json(scope: dict) -> dict:
 
 async def drive_h11(cfg: dict, ops) -> Tuple[List[dict], List[dict], dict]:
     """ops: a list of, or a policy `f(view) -> op | None` yielding,
-    {"data": bytes} | {"send": [obj, msg]} | {"closed": 1} | {"terminate": 1}
+    {"data": bytes} | {"send": [obj, msg]} | {"closed": 1} | {"terminate": 1} | {"deferred": 1}
     (view = {"objs": n, "puts": {obj: [...]}, "spawned": [obj…], "parked": bool, "up_closed": bool, "steps": k}).
     Returns (model ops, observations aligned with the model ops, library facts)."""
     from hypercorn.config import Config
@@ -117,6 +117,7 @@ async def drive_h11(cfg: dict, ops) -> Tuple[List[dict], List[dict], dict]:
         setattr(config, k, v)
     config._log = S.RecLog(sink)  # type: ignore
     objs: list = []
+    spawned: list = []
 
     def obj_id(stream) -> int:
         for i, o in enumerate(objs):
@@ -137,7 +138,11 @@ async def drive_h11(cfg: dict, ops) -> Tuple[List[dict], List[dict], dict]:
             return app_put
 
         def spawn(self, func, *args):
-            sink.append(["spawnClose"] if any(type(a).__name__ == "StreamClosed" for a in args) else ["spawnPings"])
+            if any(type(a).__name__ == "StreamClosed" for a in args):
+                sink.append(["spawnClose"])
+                spawned.append((func, args))          # run by a later {"deferred": 1} op (the task the real task group would start)
+            else:
+                sink.append(["spawnPings"])
 
     async def send(ev):
         if isinstance(ev, RawData):
@@ -223,6 +228,7 @@ async def drive_h11(cfg: dict, ops) -> Tuple[List[dict], List[dict], dict]:
                 if reader_task is not None and not reader_task.done():
                     continue       # a parked reader does not read (TCPServer awaits protocol.handle)
                 was_ws = not isinstance(proto.connection, h11.Connection)
+                had_stream = proto.stream is not None
                 sw = {}
 
                 async def run_handle(data=op["data"]):
@@ -242,7 +248,10 @@ async def drive_h11(cfg: dict, ops) -> Tuple[List[dict], List[dict], dict]:
                 obs.append(None)
                 levs = drain_lib_events()
                 if was_ws:
-                    levs = ([{"k": "wsData", "data": b2s(op["data"]), "events": list(wtap.yielded)}] if op["data"] else []) + [{"k": "needData"}]
+                    # H11WSConnection is not tapped: its results are reconstructed.  Without a stream the loop ends at the Data
+                    # event (`elif self.stream is None: break`), next_event() is not called again
+                    levs = ([{"k": "wsData", "data": b2s(op["data"]), "events": list(wtap.yielded)}] if op["data"] else []) + (
+                        [{"k": "needData"}] if had_stream or not op["data"] else [])
                 for e in levs:
                     model_ops.append({"op": "ev", **e})
                     obs.append(None)
@@ -308,6 +317,21 @@ async def drive_h11(cfg: dict, ops) -> Tuple[List[dict], List[dict], dict]:
                 await ctx.terminated.set()
                 model_ops.append({"op": "terminate"})
                 obs.append(snap())
+            elif "deferred" in op:
+                # the `stream_send(StreamClosed)` a self-answering stream handed to the task group
+                if not spawned:
+                    continue
+                func, args = spawned.pop(0)
+                await func(*args)
+                await settle()
+                model_ops.append({"op": "deferredClose"})
+                levs = drain_lib_events()      # a parked reader may have been released
+                obs.append(None if levs else snap())
+                for e in levs:
+                    model_ops.append({"op": "ev", **e})
+                    obs.append(None)
+                if levs:
+                    obs[-1] = snap()
         if reader_task is not None and not reader_task.done():
             reader_task.cancel()
             try:
